@@ -42,6 +42,15 @@ macro_rules | `(tactic| errs_leaf) => `(tactic| with_reducible exact idnaDecode_
 
 theorem encodeHost_errs [Sub VO Q] (o : Oracles) (h : Str) (v : Bool) : Errs Q (encodeHost o h v) := by
   unfold encodeHost; errs
+  -- the IP branch now returns an `R Str` (the zone id is validated): it is `pure _` or a ValueError
+  rename_i heq
+  split at heq
+  · split at heq
+    · split at heq
+      · cases heq; exact Errs.error vo_value
+      · split at heq <;> (cases heq; exact Errs.pure _)
+    · cases heq
+  · cases heq
 
 macro_rules | `(tactic| errs_leaf) => `(tactic| with_reducible exact encodeHost_errs _ _ _)
 
